@@ -121,6 +121,8 @@ class Prov:
         if "idx" in e:
             return ("index", t, self.local(e["idx"], _inprog))
         if "cidx" in e:
+            if e.get("from_end"):
+                return ("unknown", f"cindex-from-end {e['cidx']}")
             return simp(("cindex", t, e["cidx"]))
         if "vidx" in e:
             return ("variant", t, e.get("variant") or e["vidx"])
@@ -166,7 +168,31 @@ class Prov:
         else:
             path = c.get("resolved") or c["path"]
         args = tuple(self.operand(a, inprog) for a in t["args"])
+        if path.endswith("::from_residual") and "std::option::Option<" in path.split(" as ")[0]:
+            # `x?` on an Option inside a function returning Option: the residual can only be None
+            return ("agg", "adt:std::option::Option::None", ())
+        red = self._beta(path, args, bi)
+        if red is not None:
+            return red
         return ("call", path, args, bi)
+
+    def _beta(self, path, args, bi):
+        """`Fn::call(&f, (a, ..))` where f is a known function item (e.g. a helper's `impl Fn` parameter after the helper
+        was spliced into its caller): the direct call, or the aggregate when f is a tuple-variant/struct constructor"""
+        if path not in ("std::ops::Fn::call", "std::ops::FnMut::call_mut", "std::ops::FnOnce::call_once") or len(args) != 2:
+            return None
+        f = strip(args[0], calls=False)
+        tup = strip(args[1], calls=False)
+        if f[0] != "fn" or not (tup[0] == "agg" and tup[1] == "tuple"):
+            return None
+        target = f[1]
+        facts = getattr(self.fn, "facts", None)
+        if facts is not None and "::" in target:
+            adt, var = target.rsplit("::", 1)
+            a = facts.adts.get(adt)
+            if a is not None and any(v["name"] == var for v in a["variants"]):
+                return ("agg", f"adt:{adt}::{var}", tuple(tup[2]))
+        return ("call", target, tuple(tup[2]), bi)
 
     def rvalue(self, rv, inprog=None):
         if "use" in rv:
@@ -312,6 +338,24 @@ def walk(t):
         yield from walk(t[2])
     elif k == "overflow_flag":
         yield from walk(t[1])
+
+
+def narrow_variants(t):
+    """rewrite `(φ(a, b, ..) as V).i`: a downcast to variant V is only ever executed on a value that is a V, so alternatives that
+    are literal aggregates of another variant are dropped; a single remaining aggregate yields its field.  NOT valid for
+    loop-carried state (the flow-insensitive φ would equate the value of an earlier iteration with the current one): callers
+    use it only on values defined and consumed in the same iteration."""
+    if not isinstance(t, tuple):
+        return t
+    if t[0] == "field" and t[1][0] == "variant" and t[1][1][0] == "phi":
+        name = t[1][2]
+        keep = [y for y in alts(t[1][1]) if not (y[0] == "agg" and y[1].startswith("adt:") and not y[1].endswith("::" + str(name)))]
+        if len(keep) == 1:
+            return narrow_variants(simp(("field", ("variant", keep[0], name), t[2])))
+        return t
+    if t[0] in ("ref", "deref"):
+        return simp((t[0], narrow_variants(t[1])))
+    return t
 
 
 def alts(t):
